@@ -466,6 +466,75 @@ theorem C10_documented_errors (cap maxPayload : Nat) (hdr : List Byte → Hdr) (
     simp only [spec, h1, h2, this, if_false, h4']
     rw [if_neg h5]
 
+/-- **C10 for a peer that goes silent**: what happens is still independent of the segmentation -/
+theorem C10_stall_segmentation_independent (cap maxPayload : Nat) (hdr : List Byte → Hdr)
+    (hpos : ∀ l n, hdr l = .payload n → 1 ≤ n) (fuel : Nat)
+    (cs cs' : List (List Byte)) (hne : NonEmpty cs) (hne' : NonEmpty cs') (hsame : cs.flatten = cs'.flatten) :
+    stallView (frames cap maxPayload hdr fuel init cs) = stallView (frames cap maxPayload hdr fuel init cs') := by
+  rw [C10_segmentation_independent cap maxPayload hdr hpos fuel cs cs' hne hne' hsame]
+
+theorem stallView_last (l : List Ev) (e : Ev) (hl : l.getLast? = some e) :
+    (e = .closedTruncated → (stallView l).getLast? = some .closedPayloadTimeout) ∧
+    (e = .eof → (stallView l).getLast? = some .waiting) ∧
+    (e ≠ .closedTruncated → e ≠ .eof → (stallView l).getLast? = some (.ev e)) := by
+  induction l with
+  | nil => simp at hl
+  | cons a as ih =>
+    cases as with
+    | nil =>
+      simp only [List.getLast?_singleton, Option.some.injEq] at hl
+      subst hl
+      cases a <;> simp [stallView]
+    | cons b bs =>
+      have hl' : (b :: bs).getLast? = some e := by simpa [List.getLast?_cons_cons] using hl
+      obtain ⟨i1, i2, i3⟩ := ih hl'
+      have hne : stallView (b :: bs) ≠ [] := by
+        cases b <;> cases bs <;> simp [stallView]
+      have hs : stallView (a :: b :: bs) = .ev a :: stallView (b :: bs) := by
+        cases a <;> simp [stallView]
+      rw [hs]
+      obtain ⟨x, xs, hx⟩ := List.exists_cons_of_ne_nil hne
+      rw [hx] at i1 i2 i3 ⊢
+      simp only [List.getLast?_cons_cons]
+      exact ⟨i1, i2, i3⟩
+
+/-- **never a hang inside a payload**: if the bytes received so far end inside a payload — its body or its terminating newline
+    outstanding — the connection is closed with the payload-read TIMEOUT; only between frames does the reader keep waiting -/
+theorem C10_stall_inside_payload_times_out (cap maxPayload : Nat) (hdr : List Byte → Hdr) (fuel : Nat) (r : List Byte)
+    (h : (spec cap maxPayload hdr fuel r).getLast? = some .closedTruncated) :
+    (stallView (spec cap maxPayload hdr fuel r)).getLast? = some .closedPayloadTimeout :=
+  (stallView_last _ _ h).1 rfl
+
+/-- the terminator counts as part of the payload: a header announcing `n` bytes followed by exactly `n` bytes and nothing more
+    is *inside* the payload -/
+theorem C10_missing_terminator_is_inside_payload (cap maxPayload : Nat) (hdr : List Byte → Hdr) (fuel : Nat)
+    (line payload : List Byte) (hline : findLF line = none) (hfit : line.length < cap)
+    (hh : hdr line = .payload payload.length) (hle : payload.length ≤ maxPayload) :
+    spec cap maxPayload hdr (fuel + 1) (line ++ [LF] ++ payload) = [.closedTruncated] := by
+  have hfind : findLF (line ++ [LF]) = some line.length := by
+    clear hh hfit
+    induction line with
+    | nil => simp [findLF]
+    | cons b bs ih =>
+      simp only [findLF, List.cons_append] at hline ⊢
+      split at hline
+      · cases hline
+      · next hb =>
+        simp only [hb, if_false]
+        cases hq : findLF bs with
+        | none => simp [ih hq]
+        | some q => simp [hq] at hline
+  have h1 : findLF ((line ++ [LF] ++ payload).take cap) = some line.length :=
+    findLF_take _ _ cap (findLF_append_some _ _ _ hfind) hfit
+  simp only [spec, h1]
+  have htake : (line ++ [LF] ++ payload).take line.length = line := by simp [List.append_assoc]
+  have hdrop : (line ++ [LF] ++ payload).drop (line.length + 1) = payload := by
+    rw [List.drop_append_of_le_length (by simp)]
+    simp
+  rw [htake, hdrop, hh]
+  have hnb : ¬ payload.length > maxPayload := by omega
+  simp [hnb]
+
 /-! ### non-vacuity -/
 example : NonEmpty [[80, 73], [78, 71, 32, 105, 100, 61, 49, 10]] := by
   intro c hc; simp at hc; rcases hc with rfl | rfl <;> simp
@@ -476,3 +545,6 @@ end Narwhal.Reader
 #print axioms Narwhal.Reader.C10_segmentation_independent
 #print axioms Narwhal.Reader.C10_payload_lengths_accepted
 #print axioms Narwhal.Reader.C10_documented_errors
+#print axioms Narwhal.Reader.C10_stall_segmentation_independent
+#print axioms Narwhal.Reader.C10_stall_inside_payload_times_out
+#print axioms Narwhal.Reader.C10_missing_terminator_is_inside_payload
